@@ -64,6 +64,50 @@ def strip_conv(t):
     return org, data
 
 
+def structural_deviations(ctx, fi, where) -> bool:
+    """definite deviations that are visible in the statement structure of get_rate_matrix (decided before the kernel derivation):
+    value-dependent pruning of stored entries; an energy difference that is replaced on a data-dependent branch"""
+    import ast as _a
+    from ..astutil import Canon
+    from ..model import src, norm_stmt
+    found = False
+    # (a) entries removed / zeroed by value:  X.data[<comparison>] = c ,  X.eliminate_zeros() / prune() after such a store
+    for n in _a.walk(fi.node):
+        if isinstance(n, _a.Assign) and len(n.targets) == 1 and isinstance(n.targets[0], _a.Subscript):
+            t = n.targets[0]
+            if isinstance(t.value, _a.Attribute) and t.value.attr == "data" and any(isinstance(c, _a.Compare) for c in _a.walk(t.slice)) and \
+                    isinstance(n.value, _a.Constant) and n.value.value == 0:
+                ctx.instance("KERNEL")
+                ctx.violate("KERNEL", "C01.prune", "stored rates are set to zero by a value threshold: the returned pattern is no longer the "
+                            "pattern of the inputs and small but non-zero rates (and their contribution to the diagonal) are lost", where,
+                            norm_stmt(n)[:140], witness=f"mask {src(t.slice)[:80]}")
+                found = True
+    # (b) every definition of the energy difference that reaches the exponential is E[row] - E[col] (either sign): a definition
+    #     without the energies (zeros, a constant) on a data-dependent branch replaces the physics by a shortcut
+    defs = {}
+    for n in _a.walk(fi.node):
+        if isinstance(n, _a.Assign) and len(n.targets) == 1 and isinstance(n.targets[0], _a.Name):
+            defs.setdefault(n.targets[0].id, []).append(n)
+    for name, ds in defs.items():
+        with_e = [d for d in ds if src(d.value).count("self.energies[") >= 2 and isinstance(d.value, _a.BinOp) and isinstance(d.value.op, _a.Sub)]
+        if not with_e:
+            continue
+        for d in ds:
+            if d in with_e or name in {x.id for x in _a.walk(d.value) if isinstance(x, _a.Name)}:
+                continue
+            if "energies" in src(d.value):
+                continue
+            # d defines the difference without the energies: on which condition?
+            par = getattr(d, "_parent", None)
+            cond = src(par.test)[:100] if isinstance(par, _a.If) else "unconditionally"
+            ctx.instance("KERNEL")
+            ctx.violate("KERNEL", "C01.exponent.shortcut", "on one branch the energy difference that enters the exponential is not E_i - E_j of "
+                        "the pair but a substitute: pairs with a small relative (but physically relevant) difference get the wrong rate", where,
+                        norm_stmt(d)[:140], witness=f"branch condition: {cond}")
+            found = True
+    return found
+
+
 def run(ctx, repo, tier):
     for fmt in ("csr", "coo"):
         run_context(ctx, repo, tier, fmt)
@@ -125,6 +169,8 @@ def run_context(ctx, repo, tier, fmt):
     ctx.notes.extend(interp.notes)
     ctx.extra["derived_result"] = vstr(res)[:1500]
 
+    if structural_deviations(ctx, fi, where):
+        return
     if not T.is_sparse(res):
         reason = contains_top(res) or f"result is {vstr(res)[:200]}"
         ctx.inconclusive("KERNEL", "C01.result", "return value of get_rate_matrix is not a recognised sparse term", where,
@@ -157,6 +203,15 @@ def run_context(ctx, repo, tier, fmt):
             ctx.violate("KERNEL", "C01.O4", "S and h data vectors are combined in different entry orders (the conversion "
                         "chains applied to surfaces and distances before `.data` differ)", where,
                         construct="transition_matrix.data /= <distances>.data", witness=reason)
+            return
+        from ..voro import find_terms
+        ratio = [t for t in find_terms(Mdata, lambda t_: t_.op == "div") if len(t.args) == 2 and
+                 all(find_terms(a, lambda u: u.op == "exp") or (isinstance(a, Term) and a.op == "exp") for a in t.args)] if isinstance(Mdata, (Term, Grid)) else []
+        if ratio:
+            ctx.violate("KERNEL", "C01.O2.ratio", "the Boltzmann factor is formed as a QUOTIENT of per-cell exponentials instead of the exponential "
+                        "of the (capped) energy difference: for energies far from the reference the single exponentials under/overflow "
+                        "(0/0, inf/inf) although E_i - E_j is small, and the cap no longer bounds the argument of exp", where,
+                        "np.exp(..)[col] / np.exp(..)[row]", witness=vstr(ratio[0])[:300])
             return
         ctx.inconclusive("KERNEL", "C01.data", "off-diagonal data vector not derived", where,
                          witness=contains_top(Mdata) or vstr(Mdata)[:300])
